@@ -10,7 +10,7 @@ THEOREMS = [
     'C10_syntax_xml', 'C10_syntax_soap', 'C10_syntax_json', 'C10_syntax_yaml_refuted', 'C10_syntax_yaml_partial',
     'C10_syntax_msgpack', 'C10_leaf_total', 'C10_xml_total', 'C10_soap_total', 'C10_dict_total',
     'C10_dict_fuel_sufficient', 'C10_xml_wsgi_total', 'C10_soap_wsgi_total', 'C10_dict_wsgi_total',
-    'C10_fault_means_not_called', 'C10_get_out_object_guard',
+    'C10_fault_means_not_called', 'C10_get_out_object_guard', 'C10_wsgi_charset',
 ]
 
 # what each parser library may raise, as assumed by the theorems (C10/Proofs.v XML_FIRST,
@@ -42,7 +42,9 @@ def input_shape(req, verdict):
     """a coarse tag of the input, for the failures that are pinned to one input shape (library
     defects listed as known findings); empty for everything else"""
     kind, detail = verdict
-    if req['protocol'] == 'yaml' and kind == 'crash' and detail.endswith('protocol/yaml.py:create_in_document'):
+    if req['protocol'] == 'mprpc' and req.get('bare'):
+        return '|bare-method'
+    if D.in_proto(req['protocol']) == 'yaml' and kind == 'crash' and detail.endswith('protocol/yaml.py:create_in_document'):
         for tag in (b'!!timestamp', b'!!bool'):
             if tag in req['body']:
                 return '|explicit-tag-%s-on-a-scalar-of-another-kind' % tag.decode()
@@ -51,7 +53,9 @@ def input_shape(req, verdict):
 
 def violation_key(req, verdict):
     kind, detail = verdict
-    return 'C10|%s|%s|%s%s' % (kind, detail, req['protocol'], input_shape(req, verdict))
+    # the site is in the detail; the protocol named is the INPUT protocol (the output protocol of a
+    # cross configuration shows in the site when it matters)
+    return 'C10|%s|%s|%s%s' % (kind, detail, D.in_proto(req['protocol']), input_shape(req, verdict))
 
 
 def check_request(check, sv, which, req, origin):
@@ -80,29 +84,38 @@ def requests_for(rng, proto, body, validators=None, wsgi_p=0.35):
     return out
 
 
-def structured_bodies(rng, desc, n_mut):
+def structured_bodies(rng, desc, n_mut, allow_bare=True):
     """one logical request rendered (and mutated) for every protocol: [(proto, body, origin)]"""
     out = []
     m, args = G.gen_request(rng, desc)
-    doc = {m: copy.deepcopy(args)}
+    while not allow_bare and isinstance(args, G.Bare):
+        m, args = G.gen_request(rng, desc)
+    bare = isinstance(args, G.Bare)
+    doc = G.doc_of(m, args)
     try:
         for _ in range(n_mut):
             doc = G.mutate_doc(rng, doc)
     except Exception:
-        doc = {m: copy.deepcopy(args)}
+        doc = G.doc_of(m, args)
     for p in ('json', 'yaml', 'msgpack'):
         d = G.msgpack_top(doc) if p == 'msgpack' and rng.random() < .85 else doc
         b = G.render_dict(p, d)
         if b is not None:
             out.append((p, b, 'structured(%d mutations)' % n_mut))
+            # the same request with an XML-family output protocol
+            for cp in D.CROSS:
+                if D.in_proto(cp) == p and rng.random() < .5:
+                    out.append((cp, b, 'structured(%d mutations), cross output' % n_mut))
     # msgpack-rpc
     try:
         import msgpack
-        (mm, a), = {m: args}.items()
+        mm = m
+        a = {'x': args.value} if bare else args
         call = [0, 1, mm, [doc.get(mm, doc)] if isinstance(doc, dict) and rng.random() < .5 else list(a.values())]
         if n_mut and rng.random() < .5:
             call = G.setp(call, rng.choice(G.paths(call)), copy.deepcopy(rng.choice(G.JUNK)))
-        out.append(('mprpc', msgpack.packb(call, use_bin_type=True), 'structured(%d mutations)' % n_mut))
+        out.append(('mprpc', msgpack.packb(call, use_bin_type=True),
+                    'structured(%d mutations)%s' % (n_mut, ' bare' if bare else '')))
     except Exception:
         pass
     from lxml import etree
@@ -121,6 +134,8 @@ def structured_bodies(rng, desc, n_mut):
         out.append((p, b, 'structured(%d mutations)' % n_mut))
     # HttpRpc: query string
     try:
+        if bare:
+            raise ValueError('no flat form for a bare argument here')
         qs = G.render_qs(m, args if n_mut == 0 else (doc.get(m) if isinstance(doc, dict) and isinstance(doc.get(m), dict) else args))
         if n_mut and rng.random() < .3:
             qs = (qs + '&' if qs else '') + rng.choice(G.QS_JUNK)
@@ -151,11 +166,15 @@ def oracle_campaign(check, sv, which, desc):
                              ctype=None), origin)
                 continue
             for req in requests_for(rng, p, b):
+                if origin.endswith(' bare'):
+                    req['bare'] = True
                 run(req, origin)
             # byte-level damage of the same request
             if rng.random() < (.25 if quick else .5):
                 for tb in G.truncations(rng, b, 3 if quick else 12) + [G.corrupt(rng, b) for _ in range(2)]:
                     for req in requests_for(rng, p, tb, validators=(rng.choice(D.validators(p)),), wsgi_p=.25):
+                        if origin.endswith(' bare'):
+                            req['bare'] = True
                         run(req, 'truncated/corrupted')
     # 1b. every leaf member x every hostile literal of its kind (and the general junk), at its place
     #     in an otherwise valid request: the boundary cases of the leaf readers, end to end
@@ -190,6 +209,10 @@ def oracle_campaign(check, sv, which, desc):
                     if b is not None:
                         for v in (None, 'soft'):
                             run(dict(protocol=p, validator=v, transport='server', body=b), 'leaf sweep')
+                        for cp in D.CROSS:
+                            if D.in_proto(cp) == p and (isinstance(lit, str) or rng.random() < .2):
+                                run(dict(protocol=cp, validator=rng.choice((None, 'soft')), transport='server', body=b),
+                                    'leaf sweep, cross output')
                 if isinstance(lit, (str, int, float, bool)) or lit is None:
                     from lxml import etree
                     for p, ns in (('xml', None), ('soap11', G.S11)):
@@ -206,16 +229,44 @@ def oracle_campaign(check, sv, which, desc):
                                      path='/' + base_m, qs=qs, ctype=None), 'leaf sweep')
                         except Exception:
                             pass
+    # 1c. the same for the single argument of every bare method
+    from lxml import etree as _et
+    for m, ty in desc.get('bare', []):
+        t, multi = (ty[1], True) if ty[0] == 'arr' else (ty, False)
+        k = 'enum' if t[0] == 'enum' else t[1] if t[0] == 'leaf' else None
+        lits = (list(G.KIND_JUNK.get(k, [])) if k else []) + (G.GENERAL_JUNK if not quick else rng.sample(G.GENERAL_JUNK, 8))
+        for lit in lits:
+            val = [lit] if multi else lit
+            for p in ('json', 'yaml', 'msgpack') + D.CROSS:
+                ip = D.in_proto(p)
+                b = G.render_dict(ip, G.msgpack_top({m: val}) if ip == 'msgpack' else {m: val})
+                if b is not None:
+                    for v in (None, 'soft'):
+                        run(dict(protocol=p, validator=v, transport='server', body=b), 'bare argument sweep')
+            if isinstance(lit, (str, int, float, bool)) or lit is None:
+                for p, ns in (('xml', None), ('soap11', G.S11), ('soap12', G.S12)):
+                    try:
+                        b = _et.tostring(G.render_xml(desc, m, G.Bare(val, ty), ns))
+                    except Exception:
+                        continue
+                    for v in D.validators(p):
+                        run(dict(protocol=p, validator=v, transport='server', body=b), 'bare argument sweep')
     # 2. the corpus, every validator, both entry points
     for p, bodies in G.CORPUS.items():
         for b in bodies:
             for v in D.validators(p):
                 run(dict(protocol=p, validator=v, transport='server', body=b), 'corpus')
             run(dict(protocol=p, validator=None, transport='wsgi', body=b), 'corpus')
+            for cp in D.CROSS:
+                if D.in_proto(cp) == p:
+                    run(dict(protocol=cp, validator='soft', transport='server', body=b), 'corpus, cross output')
+    for b in G.CORPUS_MPRPC_BARE:
+        for v in (None, 'soft'):
+            run(dict(protocol='mprpc', validator=v, transport='server', body=b, bare=True), 'corpus')
     # 3. every prefix of one valid request per protocol (thorough: of several)
     for rep in range(1 if quick else 6):
         m, args = G.gen_request(rng, desc)
-        for p, b, _ in structured_bodies(rng, desc, 0):
+        for p, b, _ in structured_bodies(rng, desc, 0, allow_bare=False):
             if p == 'http':
                 continue
             step = max(1, len(b) // (60 if quick else 100000))
@@ -228,7 +279,7 @@ def oracle_campaign(check, sv, which, desc):
         run(dict(protocol=p, validator=rng.choice(D.validators(p)), transport=rng.choice(['server', 'wsgi']), body=b), 'random bytes')
     # 5. transport-level variations
     valid = {}
-    for p, b, _ in structured_bodies(rng, desc, 0):
+    for p, b, _ in structured_bodies(rng, desc, 0, allow_bare=False):
         valid[p] = b
     for p in D.PROTOCOLS:
         if p == 'http' or p not in valid:
@@ -237,6 +288,26 @@ def oracle_campaign(check, sv, which, desc):
             req = dict(protocol=p, validator=None, transport='wsgi', body=valid[p])
             req.update(var)
             run(req, 'transport variation')
+    # 5b. the grammar of the Content-Type header: parameter spellings (token, quoted, RFC 2231 extended and
+    #     continued, duplicated, case, junk), every kind of codec name, multipart wrappings
+    for p in D.PROTOCOLS:
+        if p == 'http' or p not in valid:
+            continue
+        for ct in G.content_types(rng, p, quick):
+            run(dict(protocol=p, validator=None, transport='wsgi', body=valid[p], ctype=ct), 'content-type grammar')
+    for p in ('soap11', 'soap12'):
+        if p in valid:
+            for mb in G.multipart_bodies(valid[p]):
+                for ct in [c for c in G.CONTENT_TYPE_JUNK if c.lower().startswith('multipart')]:
+                    run(dict(protocol=p, validator=None, transport='wsgi', body=mb, ctype=ct), 'multipart')
+    for hdr, vals in (('HTTP_SOAPACTION', ['', '"', '"zz"', '\xff', 'a' * 20000, '"{tns}h"', 'h']),
+                      ('HTTP_ACCEPT', ['', '*/*; q=x', '\xff', ';;;']), ('HTTP_COOKIE', ['a', 'a=b; c', '=;=', '\xff=\x00']),
+                      ('HTTP_HOST', ['', ':', 'x:y:z', '[::1]:80', '\xff']),
+                      ('HTTP_CONTENT_TYPE', ['text/xml; charset=hex']), ('REQUEST_METHOD', ['', 'post', 'OPTIONS', 'P\x00ST'])):
+        for p in ('xml', 'soap11', 'json'):
+            if p in valid:
+                for val in vals:
+                    run(dict(protocol=p, validator=None, transport='wsgi', body=valid[p], extra={hdr: val}), 'header variation')
     for path in ['/', '', '/zz', '/f/g', '//', '/f/', '/%7Btns%7Df', '/{tns}f', '/{other}f', '/\xff']:
         run(dict(protocol='http', validator=None, transport='wsgi', body=b'', method='GET', path=path, qs='', ctype=None),
             'transport variation')
@@ -353,7 +424,11 @@ def run(check):
                   'unknown members, wrong value kinds, wrong nesting, xsi:nil / xsi:type / id / href attributes, entity '
                   'references), rendered for XmlDocument, Soap11, Soap12, JsonDocument, YamlDocument, MessagePackDocument, '
                   'MessagePackRpc and HttpRpc (GET), plus truncations at every/sampled prefixes, byte corruption, random bytes, a '
-                  'fixed corpus of parser-defeating inputs and WSGI header variations; every validator setting (None, soft, and '
+                  'fixed corpus of parser-defeating inputs, WSGI header variations and a Content-Type grammar stream (parameters as '
+                  'token / quoted-string / RFC 2231 extended and continued / duplicated / junk, some 50 codec names incl. non-text and '
+                  'failing codecs, multipart/related wrappings); wrapped and BARE methods (primitive, Array, class arguments); '
+                  'hostile literals incl. characters XML cannot carry, also with an XML-family OUTPUT protocol behind a JSON / YAML / '
+                  'MessagePack input; every validator setting (None, soft, and '
                   'lxml for the XML family), through ServerBase and through WsgiApplication.  A case is distinct by (service, '
                   'protocol, validator, transport, body, transport parameters)')
     check.trusted = list(lib.COMMON_TRUSTED) + [
@@ -612,7 +687,8 @@ Inductive kase :=
 | KSoap (ns : text) (soft : bool) (rq : soap_request) (exp : outcome)
 | KDict (P : dproto) (soft : bool) (rq : dict_request) (key : text) (exp : outcome)
 | KXmlW (soft : bool) (rq : xml_request) (exp : outcome)
-| KDictW (P : dproto) (soft : bool) (rq : dict_request) (key : text) (exp : outcome).
+| KDictW (P : dproto) (soft : bool) (rq : dict_request) (key : text) (exp : outcome)
+| KXmlC (cl : codec_lookup) (rq : xml_request) (exp : outcome).
 Definition run_kase (k : kase) : outcome :=
   match k with
   | KXml soft rq _ => xml_server soft app0 rq
@@ -620,11 +696,12 @@ Definition run_kase (k : kase) : outcome :=
   | KDict P soft rq key _ => dict_server (fmt_const key) P soft app0 40 rq
   | KXmlW soft rq _ => xml_wsgi soft app0 (Ret tt) rq
   | KDictW P soft rq key _ => dict_wsgi (fmt_const key) P soft app0 40 (Ret tt) rq
+  | KXmlC cl rq _ => xml_wsgi false app0 (reconstruct_wsgi_request cl) rq
   end.
 Definition kase_ok (k : kase) : bool :=
   match k with
   | KXml _ _ e | KSoap _ _ _ e | KDict _ _ _ _ e => outcome_eqb (run_kase k) e
-  | KXmlW _ _ e | KDictW _ _ _ _ e => outcome_code_eqb (run_kase k) e
+  | KXmlW _ _ e | KDictW _ _ _ _ e | KXmlC _ _ e => outcome_code_eqb (run_kase k) e
   end.
 '''
 
@@ -637,7 +714,7 @@ def model_bodies(check, quick):
     for it in range(n):
         n_mut = rng.choice([0, 1, 1, 1, 2, 2, 3])
         for p, b, _ in structured_bodies(rng, U.MODEL_DESC, n_mut):
-            if p in ('http', 'mprpc'):
+            if p in ('http', 'mprpc') or '>' in p:
                 continue
             out.append((p, b))
             if rng.random() < .15:
@@ -674,6 +751,24 @@ def correspondence(check, sv):
                 continue
             cases['xml' if p == 'xml' else 'soap' if p in D.XML_FAMILY else 'dict'].extend(c)
             check.count(('corr', p, v, b))
+    # the charset parameter of Content-Type: what codecs.lookup does with the name, against the answer
+    import codecs
+    body = b'<h xmlns="tns"/>'
+    root, _ = lib_parse_xml(sv.app('model', 'xml', None).in_protocol, body, False)
+    first = '(LibOk %s)' % U.g_xnode(root)
+    for name in G.CODECS:
+        try:
+            info = codecs.lookup(name)
+            cl = '(CLFound %s)' % gbool(getattr(info, '_is_text_encoding', True))
+        except Exception as e:
+            cl = '(CLRaise %s)' % g_exc(['%s.%s' % (c.__module__, c.__qualname__) for c in type(e).__mro__], table)
+        wobs = D.observe(sv, 'model', dict(protocol='xml', validator=None, transport='wsgi', body=body,
+                                           ctype='text/xml; charset=%s' % name))
+        wexp = g_outcome_wsgi(wobs, term, table)
+        if wexp is not None and ';' not in name and '"' not in name and name == name.strip() and name:
+            cases['xml'].append(('(KXmlC %s (mkxreq %s (LibRaise EException) None) %s)' % (cl, first, wexp),
+                                 'charset=%r -> %s' % (name[:40], wobs.short())))
+            check.count(('charset', name))
     check.extra['correspondence_skipped_outside_universe'] = skipped
     # the library assumptions of the theorems, against what the libraries did in this run
     seen = {}
